@@ -1,7 +1,7 @@
 #!/bin/bash
 # re-confirm every stored seeded change against the current /repo HEAD and re-run our checks on it
 cd "$(dirname "$0")/.."
-for d in seeded/*/; do
+for d in seeded/C*/; do
   name=$(basename $d); prop=${name%%-*}
   echo "=== $name"
   /venv/bin/python tools/try_seed.py $prop /verif/seeded/$name --name $name --seeds ${SEEDS:-1,2} 2>&1 | cut -c1-300
